@@ -1,11 +1,15 @@
 mod c01;
+mod c03;
 mod c04;
 mod c07;
 mod c08;
 mod c09;
+mod c10;
 mod c11;
 mod c12;
 mod c13;
+mod c52;
+mod c53;
 mod c58;
 mod life;
 
@@ -22,6 +26,10 @@ fn main() {
         ("C11", c11::run_pure),
         ("C12", c12::run),
         ("C13", c13::run),
+        ("C03", c03::run),
+        ("C10", c10::run),
+        ("C52", c52::run),
+        ("C53", c53::run),
         ("C58", c58::run),
     ])
 }
